@@ -33,6 +33,7 @@ class C49(core.Prop):
     sizes = {"quick": 160, "thorough": 1500}
     max_workers = 4
     flaky_ok = True
+    ready = True
     technique = ("property-based testing (Hypothesis) of configurations and apply sequences on a real Parmap with OS threads; "
                  "per-element atomic counters as the exactly-once oracle; repetition, since the schedule belongs to the OS")
     rule = ("A case creates ONE Parmap<int> (threads in 1..16, synchronisation futex/posix/busy_wait/default, context factory "
@@ -84,6 +85,17 @@ class C49(core.Prop):
         threads = case["threads"]
         labels = {"mode:" + mode, "factory:" + case["factory"],
                   "threads:" + ("1" if threads == 1 else "2-4" if threads <= 4 else "5-8" if threads <= 8 else "9-16")}
+        if any(o.get("livelock") for o in outs):
+            # 120 s of CPU burnt without any progress; confirmed by one immediate re-run (extreme starvation is conceivable)
+            r2 = core.serve(DRIVER, case, cpu=240, wall=600)
+            oc.evals = 2
+            if r2.wall_exceeded or not (r2.cpu_exceeded or any(o.get("livelock") for o in r2.json_lines())):
+                raise core.Inconclusive()
+            oc.bad("nontermination:" + mode, "twice, the process burnt 120 s of CPU without completing a single element or apply() "
+                   "(threads=%d, after %d apply() calls): threads spin on a condition that never becomes true; output tail: %s"
+                   % (threads, sum(1 for o in outs if "a" in o), r.out[-300:]))
+            oc.labels = sorted(labels)
+            return oc
         if any(o.get("deadlock") for o in outs):
             oc.bad("deadlock:" + mode, "no progress while every thread of the process sleeps (threads=%d, after %d apply() calls): a "
                    "wake-up was lost; output tail: %s" % (threads, sum(1 for o in outs if "a" in o), r.out[-300:]))
